@@ -454,7 +454,7 @@ func (w *World) initialAdd() {
 	inst := w.inst
 	w.handlers++
 	if w.armed("C16") {
-		w.sh.rebuild(w.view)
+		w.rebuildShadow()
 		w.sinceJudge = append(w.sinceJudge, "net:ADDED:initial")
 	}
 	t := w.S.Spawn(fmt.Sprintf("net:ADDED:initial-%d", w.handlers), w.proc, func() { eventTask(inst, "networkpolicies", "ADDED", nil, js, false) })
@@ -467,7 +467,7 @@ func (w *World) spawnSync(name string) {
 	inst := w.inst
 	w.syncs++
 	if w.armed("C16") && w.view != nil {
-		w.sh.rebuild(w.view)
+		w.rebuildShadow()
 		w.sinceJudge = append(w.sinceJudge, name)
 	}
 	t := w.S.Spawn(name, w.proc, func() { syncTask(inst, name) })
